@@ -401,38 +401,59 @@ impl C07 {
 // what follows the end of the region - in either spelling of the end directive, the
 // assembler's `.end_macro` and the short `.endmacro` - must not disappear with it.
 
-pub const MACRO_CASES: u64 = 2 * 3 * 2;
+const MACRO_BAD: [&str; 4] = ["", "    addi %r, %r, 1", "    .asciz \"abc", "    li t0, 'a"];
+pub const MACRO_CASES: u64 = 2 * 3 * 2 * 7;
 
-/// (source, 0-based lines that lie behind the macro region and carry a statement)
-pub fn macro_case(i: u64) -> (String, Vec<usize>) {
+/// (source, 0-based lines that lie behind the macro region and carry a statement, 0-based
+/// line of the malformed body line if the case has one)
+pub fn macro_case(i: u64) -> (String, Vec<usize>, Option<usize>) {
     let end = [".endmacro", ".end_macro"][(i % 2) as usize];
     let body_len = ((i / 2) % 3) as usize;
     let crlf = (i / 6) % 2 == 1;
+    // a body line that cannot be lexed (a macro parameter, a broken literal), first or last in the body
+    let b = (i / 12) % 7;
+    let (bad, bad_last) = if b == 0 { (0, false) } else { (1 + ((b - 1) / 2) as usize, (b - 1) % 2 == 1) };
     let mut lines: Vec<String> = vec!["main:".into(), "    .macro inc".into()];
+    let mut bad_line = None;
+    if bad > 0 && !bad_last {
+        bad_line = Some(lines.len());
+        lines.push(MACRO_BAD[bad].into());
+    }
     for k in 0..body_len {
         lines.push(format!("    addi t{k}, t{k}, 1"));
+    }
+    if bad > 0 && bad_last {
+        bad_line = Some(lines.len());
+        lines.push(MACRO_BAD[bad].into());
     }
     lines.push(format!("    {end}"));
     let first_after = lines.len();
     lines.extend(["    addi a0, a0, 1", "    frobnicate t0", "    li a7, 10", "    ecall"].map(String::from));
     let nl = if crlf { "\r\n" } else { "\n" };
-    (lines.iter().map(|l| format!("{l}{nl}")).collect(), (first_after..first_after + 4).collect())
+    (lines.iter().map(|l| format!("{l}{nl}")).collect(), (first_after..first_after + 4).collect(), bad_line)
 }
 
 impl C07 {
+    /// what the parser made of a text: (line, node) and (line, error code) lists
+    fn parsed(src: &str) -> Option<(Vec<(usize, String)>, Vec<(usize, String)>)> {
+        let (_, nodes, errs) = std::panic::catch_unwind(|| imp::parse(imp::MemReader::single(src), "base.s")).ok()?;
+        let loc = Locator::new(src);
+        let n = nodes.iter().skip(1).map(|n| (loc.line_of(n.range().start().raw_index()), n.to_string())).collect();
+        let mut e: Vec<(usize, String)> =
+            errs.iter().map(|e| (loc.line_of(e.range().start().raw_index()), imp::parse_error_code(e).to_string())).collect();
+        e.sort();
+        Some((n, e))
+    }
+
     fn run_macro_case(case: u64, i: u64, acc: &mut Acc) {
-        let (src, after) = macro_case(i);
+        let (src, after, bad_line) = macro_case(i);
         acc.count("macro_cases", 1);
-        let Ok((_, nodes, errs)) = std::panic::catch_unwind(|| imp::parse(imp::MemReader::single(&src), "base.s")) else {
+        let Some((nodes, errs)) = Self::parsed(&src) else {
             acc.count("panicked", 1);
             return;
         };
         acc.count("traces", 1);
-        let loc = Locator::new(&src);
-        let covered = |line: usize| {
-            nodes.iter().skip(1).any(|n| loc.line_of(n.range().start().raw_index()) == line)
-                || errs.iter().any(|e| loc.line_of(e.range().start().raw_index()) == line)
-        };
+        let covered = |line: usize| nodes.iter().any(|(l, _)| *l == line) || errs.iter().any(|(l, _)| *l == line);
         for l in &after {
             if !covered(*l) {
                 let spelling = if i % 2 == 0 { "endmacro" } else { "end_macro" };
@@ -444,7 +465,123 @@ impl C07 {
                 return;
             }
         }
+        // a body line that cannot be lexed is part of the skipped region: everything else is
+        // parsed as if that line were not there
+        if let Some(b) = bad_line {
+            let without: String = src.split_inclusive('\n').enumerate().filter(|(k, _)| *k != b).map(|(_, l)| l).collect();
+            let Some((n0, e0)) = Self::parsed(&without) else {
+                acc.count("panicked", 1);
+                return;
+            };
+            let shift = |v: &[(usize, String)]| -> Vec<(usize, String)> {
+                v.iter().filter(|(l, _)| *l != b).map(|(l, t)| (if *l > b { *l - 1 } else { *l }, t.clone())).collect()
+            };
+            if shift(&nodes) != n0 || shift(&errs) != e0 {
+                let kind = ["", "macro-parameter", "unclosed-string", "unclosed-character"][((i / 12) % 7 + 1) as usize / 2];
+                acc.violation(
+                    format!("C07|not-contained|malformed-line-in-a-macro-body|{kind}"),
+                    case,
+                    json!({"case": case, "macro_case": i, "source": src, "malformed_line": b + 1,
+                        "nodes": nodes, "errors": errs, "nodes_without_the_line": n0, "errors_without_the_line": e0,
+                        "what": "with the malformed body line deleted the other lines are parsed differently"}),
+                );
+                return;
+            }
+            acc.outcome("macro-region-contained-with-malformed-body-line", case);
+            return;
+        }
         acc.outcome("macro-region-contained", case);
+    }
+}
+
+// ---------------------------------------------------------------------------------------
+// Continued data lists: the values of a data directive may go on on the following lines. A
+// malformed line among them must not change what becomes of the lines behind it.
+
+const LIST_BAD: [(&str, &str); 4] = [
+    ("bad-value", "    3, 4x"),
+    ("unlexable-character", "    @ 3"),
+    ("unknown-mnemonic", "    frobnicate t0"),
+    ("unclosed-string", "    \"abc"),
+];
+pub const LIST_CASES: u64 = 4 * 3 * 2;
+
+/// (source, 0-based line of the malformed line)
+pub fn list_case(i: u64) -> (String, usize) {
+    let bad = (i % 4) as usize;
+    let pos = ((i / 4) % 3) as usize;
+    let crlf = (i / 12) % 2 == 1;
+    let mut lines: Vec<String> = vec![".data".into(), "table: .word 1, 2".into()];
+    let cont = ["    10, 11", "    12, 13", "    14, 15"];
+    for (k, c) in cont.iter().enumerate() {
+        if k == pos {
+            lines.push(LIST_BAD[bad].1.into());
+        }
+        lines.push((*c).into());
+    }
+    lines.extend([".text", "main:", "    li a7, 10", "    ecall"].map(String::from));
+    let nl = if crlf { "\r\n" } else { "\n" };
+    (lines.iter().map(|l| format!("{l}{nl}")).collect(), 2 + pos)
+}
+
+impl C07 {
+    /// per line: is it covered by a node (a data directive covers its continuation lines), and
+    /// the parse errors located on it
+    fn line_status(src: &str) -> Option<Vec<(bool, Vec<String>)>> {
+        let (_, nodes, errs) = std::panic::catch_unwind(|| imp::parse(imp::MemReader::single(src), "base.s")).ok()?;
+        let loc = Locator::new(src);
+        let n_lines = src.split_inclusive('\n').count();
+        let mut v = vec![(false, Vec::new()); n_lines];
+        for n in nodes.iter().skip(1) {
+            let (a, b) = (loc.line_of(n.range().start().raw_index()), loc.line_of(n.range().end().raw_index()));
+            for l in a..=b.min(n_lines - 1) {
+                v[l].0 = true;
+            }
+        }
+        for e in &errs {
+            let l = loc.line_of(e.range().start().raw_index());
+            if l < n_lines {
+                v[l].1.push(imp::parse_error_code(e).to_string());
+            }
+        }
+        for x in &mut v {
+            x.1.sort();
+        }
+        Some(v)
+    }
+
+    fn run_list_case(case: u64, i: u64, acc: &mut Acc) {
+        let (src, b) = list_case(i);
+        acc.count("data_list_cases", 1);
+        let without: String = src.split_inclusive('\n').enumerate().filter(|(k, _)| *k != b).map(|(_, l)| l).collect();
+        let (Some(with), Some(base)) = (Self::line_status(&src), Self::line_status(&without)) else {
+            acc.count("panicked", 1);
+            return;
+        };
+        acc.count("traces", 1);
+        if with[b].1.is_empty() {
+            acc.violation(
+                format!("C07|silent-drop|malformed-line-in-a-continued-data-list|{}", LIST_BAD[(i % 4) as usize].0),
+                case,
+                json!({"case": case, "list_case": i, "source": src, "malformed_line": b + 1, "what": "the malformed line is not named by a parse error"}),
+            );
+            return;
+        }
+        let mut others = with.clone(); // the other lines
+        others.remove(b);
+        if others != base {
+            let first = (0..base.len()).find(|k| others[*k] != base[*k]).unwrap_or(0);
+            acc.violation(
+                "C07|not-contained|malformed-line-in-a-continued-data-list",
+                case,
+                json!({"case": case, "list_case": i, "source": src, "malformed_line": b + 1,
+                    "first_line_parsed_differently": first + 1 + usize::from(first >= b),
+                    "with_the_line": format!("{:?}", others[first]), "with_the_line_deleted": format!("{:?}", base[first]),
+                    "what": "with the malformed line deleted the lines behind it are values of the list; with it they are parse errors"}),
+            );
+            return;
+        }
+        acc.outcome("data-list-contained", case);
     }
 }
 
@@ -453,7 +590,7 @@ impl Property for C07 {
         "C07"
     }
     fn cases(&self, tier: Tier) -> u64 {
-        self.space(tier).count() * Self::VARIANTS + MACRO_CASES
+        self.space(tier).count() * Self::VARIANTS + MACRO_CASES + LIST_CASES
     }
     fn chunk(&self, _tier: Tier) -> u64 {
         8000
@@ -461,6 +598,10 @@ impl Property for C07 {
     fn run_case(&self, tier: Tier, case: u64, acc: &mut Acc) {
         acc.count("cases", 1);
         let enumerated = self.space(tier).count() * Self::VARIANTS;
+        if case >= enumerated + MACRO_CASES {
+            Self::run_list_case(case, case - enumerated - MACRO_CASES, acc);
+            return;
+        }
         if case >= enumerated {
             Self::run_macro_case(case, case - enumerated, acc);
             return;
@@ -474,6 +615,9 @@ impl Property for C07 {
     }
     fn show(&self, tier: Tier, case: u64) -> String {
         let enumerated = self.space(tier).count() * Self::VARIANTS;
+        if case >= enumerated + MACRO_CASES {
+            return list_case(case - enumerated - MACRO_CASES).0;
+        }
         if case >= enumerated {
             return macro_case(case - enumerated).0;
         }
@@ -482,6 +626,10 @@ impl Property for C07 {
         format!("{:?}\n{:?}", fc, Self::files(&fc, &lines).0)
     }
     fn replay(&self, w: &Value, acc: &mut Acc) {
+        if let Some(m) = w["list_case"].as_u64() {
+            Self::run_list_case(w["case"].as_u64().unwrap_or(0), m, acc);
+            return;
+        }
         if let Some(m) = w["macro_case"].as_u64() {
             Self::run_macro_case(w["case"].as_u64().unwrap_or(0), m, acc);
             return;
